@@ -457,7 +457,13 @@ impl Authorizer {
                     return Err(error::Token::RunLimit(error::RunLimit::Timeout));
                 }
 
-                if res {
+                if check.kind == CheckKind::Reject {
+                    // `reject if` passes only when none of its alternatives matches
+                    successful = res;
+                    if !res {
+                        break;
+                    }
+                } else if res {
                     successful = true;
                     break;
                 }
@@ -516,7 +522,13 @@ impl Authorizer {
                         return Err(error::Token::RunLimit(error::RunLimit::Timeout));
                     }
 
-                    if res {
+                    if check.kind == CheckKind::Reject {
+                        // `reject if` passes only when none of its alternatives matches
+                        successful = res;
+                        if !res {
+                            break;
+                        }
+                    } else if res {
                         successful = true;
                         break;
                     }
@@ -609,7 +621,13 @@ impl Authorizer {
                             return Err(error::Token::RunLimit(error::RunLimit::Timeout));
                         }
 
-                        if res {
+                        if check.kind == CheckKind::Reject {
+                            // `reject if` passes only when none of its alternatives matches
+                            successful = res;
+                            if !res {
+                                break;
+                            }
+                        } else if res {
                             successful = true;
                             break;
                         }
